@@ -9,6 +9,7 @@ CLAIMS = {
  'C01': ('packet-inspection functions and the integer decision logic of the decode front end are memory-safe and return documented results for every packet within the bounds; synthesis DSP is behind stubs and not claimed', '2/C01'),
  'C06': ('differential check of the real parser against an independent RFC 6716 framing model over all byte strings within the length/frame-count bounds', '2/C06'),
  'C17': ('U-table recurrence, PVQ index/vector bijection for small (N,K), Laplace interval tiling and inversion over the whole probability model, every static ICDF table, and the pulse cache, each decided for all symbolic indices within the listed bounds', '2/C17'),
+ 'C18': ('NLSF stabiliser for any int16 input, NLSF decode, interpolation, gain dequantisation chains (inductive), pitch lag decoding and table reads decided for every index value a bitstream can carry; LPC stability itself is not claimed', '2/C18'),
  'C08': ('range coder round trips, accounting invariant (inductive) and termination lemma decided over all parameters within small buffer/sequence bounds', '2/C08'),
 }
 NA = {
